@@ -77,6 +77,27 @@ fn run_bitops<R: BufRead + Clone>(mut r: rbsp::BitReader<R>, ops: &str, out: &mu
                     return;
                 }
             }
+        } else if let Some(n) = op.strip_prefix('R') {
+            // BitReader::reader(): when byte-aligned, take up to n whole bytes through the borrowed inner reader
+            let n: usize = n.parse().unwrap();
+            match r.reader() {
+                None => out.push("R:unaligned".into()),
+                Some(inner) => {
+                    let mut left = n;
+                    while left > 0 {
+                        match inner.fill_buf() {
+                            Ok(b) if b.is_empty() => break,
+                            Ok(b) => {
+                                let k = std::cmp::min(b.len(), left);
+                                inner.consume(k);
+                                left -= k;
+                            }
+                            Err(_) => break,
+                        }
+                    }
+                    out.push(format!("R:{}", n - left));
+                }
+            }
         } else if op == "t8" {
             num!(r.read_to::<u8>("x"));
         } else if op == "t16" {
@@ -221,6 +242,33 @@ fn cmd_rbsp(args: &[&str], out: &mut Vec<String>) {
 
 /// The other std::io::Read entry points of a NAL reader must deliver what fill_buf/consume delivered (`want`, ending
 /// with `end`): read_exact in pieces of exactly the buffered chunk, read_exact in pieces of `piece` bytes, read_to_end.
+/// after a reader reported its end (`end` = "Eof" or an error kind) every further call reports the same end, through read
+/// and through fill_buf, on the reader itself and on a clone taken now
+fn end_is_stable<R: BufRead + Clone>(c: &mut R, end: &str) -> Option<String> {
+    let mut k = c.clone();
+    for who in 0..2 {
+        let r: &mut R = if who == 0 { &mut *c } else { &mut k };
+        for round in 0..2 {
+            let mut one = [0u8; 1];
+            let a = match r.read(&mut one) {
+                Ok(0) => "Eof".to_string(),
+                Ok(_) => format!("byte{:02x}", one[0]),
+                Err(e) => iokind(&e),
+            };
+            let b = match r.fill_buf() {
+                Ok(x) if x.is_empty() => "Eof".to_string(),
+                Ok(x) => format!("bytes{}", x.len()),
+                Err(e) => iokind(&e),
+            };
+            r.consume(0);
+            if a != end || b != end {
+                return Some(format!("after-end{}{}:{}/{}", who, round, a, b));
+            }
+        }
+    }
+    None
+}
+
 fn alt_paths<R: BufRead + Clone>(r: &R, want: &[u8], end: &str, piece: usize) -> String {
     let mut bad: Vec<String> = Vec::new();
     // read_exact of exactly what fill_buf shows
@@ -241,6 +289,8 @@ fn alt_paths<R: BufRead + Clone>(r: &R, want: &[u8], end: &str, piece: usize) ->
         };
         if got != want || e != end {
             bad.push(format!("xchunk:{}!{}", hex(&got), e));
+        } else if let Some(x) = end_is_stable(&mut c, end) {
+            bad.push(format!("xchunk:{}", x));
         }
     }
     // read_exact in pieces of `piece` bytes while that many remain, then the rest
@@ -270,6 +320,8 @@ fn alt_paths<R: BufRead + Clone>(r: &R, want: &[u8], end: &str, piece: usize) ->
         };
         if got != want || e != end {
             bad.push(format!("xpiece:{}!{}", hex(&got), e));
+        } else if let Some(x) = end_is_stable(&mut c, end) {
+            bad.push(format!("xpiece:{}", x));
         }
     }
     // read_to_end
@@ -282,6 +334,17 @@ fn alt_paths<R: BufRead + Clone>(r: &R, want: &[u8], end: &str, piece: usize) ->
         };
         if got != want || e != end {
             bad.push(format!("toend:{}!{}", hex(&got), e));
+        } else if let Some(x) = end_is_stable(&mut c, end) {
+            bad.push(format!("toend:{}", x));
+        }
+        // read_to_end once more appends nothing
+        let mut again = Vec::new();
+        let e2 = match c.read_to_end(&mut again) {
+            Ok(_) => "Eof".to_string(),
+            Err(e) => iokind(&e),
+        };
+        if !again.is_empty() || e2 != end {
+            bad.push(format!("toend2:{}!{}", hex(&again), e2));
         }
     }
     if bad.is_empty() {
@@ -507,6 +570,119 @@ fn cmd_accumbig(args: &[&str], out: &mut Vec<String>) {
     out.append(&mut calls);
 }
 
+/// Fragment handler for the big synthetic streams: per unit the total length and crc32 of its bytes; records a call
+/// that hands over an empty slice, or a second end for the same unit.
+struct BigTrace {
+    out: Vec<String>,
+    cur: Vec<u8>,
+    open: bool,
+}
+impl NalFragmentHandler for BigTrace {
+    fn nal_fragment(&mut self, bufs: &[&[u8]], end: bool) {
+        if bufs.iter().any(|b| b.is_empty()) {
+            self.out.push("EMPTYSLICE".into());
+        }
+        if bufs.is_empty() && !end {
+            self.out.push("EMPTYCALL".into());
+        }
+        for b in bufs {
+            self.cur.extend_from_slice(b);
+        }
+        self.open = true;
+        if end {
+            self.out.push(format!("U{}:{:08x}", self.cur.len(), crc32(&self.cur)));
+            self.cur.clear();
+            self.open = false;
+        }
+    }
+}
+
+/// annexbig <F|A> <script> : a stream described by sizes. script tokens, comma separated: z<n> n zero bytes; s = 00 00 01;
+/// o = 01; d<n> n synthetic non-zero bytes; x<hex> literal bytes; | push what was gathered; r push it and reset.
+/// F: fragment-handler trace (units as U<len>:<crc>, open remainder as O<len>:<crc>);  A: AnnexBReader::accumulate with an
+/// always-Buffer handler, every invocation as L<len>:<crc>;<complete>.
+fn cmd_annexbig(args: &[&str], out: &mut Vec<String>) {
+    let mode = args[0];
+    let script = args.get(1).copied().unwrap_or("");
+    let mut pos = 0usize;
+    let mut pending: Vec<u8> = Vec::new();
+    enum Act {
+        Push(Vec<u8>),
+        Reset,
+    }
+    let mut acts: Vec<Act> = Vec::new();
+    for t in script.split(',').filter(|s| !s.is_empty()) {
+        if t == "|" {
+            acts.push(Act::Push(std::mem::take(&mut pending)));
+        } else if t == "r" {
+            if !pending.is_empty() {
+                acts.push(Act::Push(std::mem::take(&mut pending)));
+            }
+            acts.push(Act::Reset);
+        } else if t == "s" {
+            pending.extend_from_slice(&[0, 0, 1]);
+        } else if t == "o" {
+            pending.push(1);
+        } else if let Some(n) = t.strip_prefix('z') {
+            let n: usize = n.parse().unwrap();
+            pending.extend(std::iter::repeat(0u8).take(n));
+        } else if let Some(n) = t.strip_prefix('d') {
+            let n: usize = n.parse().unwrap();
+            pending.extend((pos..pos + n).map(synth));
+            pos += n;
+        } else if let Some(h) = t.strip_prefix('x') {
+            pending.extend(unhex(h));
+        } else {
+            panic!("bad annexbig token {}", t);
+        }
+    }
+    if !pending.is_empty() {
+        acts.push(Act::Push(pending));
+    }
+    if mode == "F" {
+        let mut r = AnnexBReader::for_fragment_handler(BigTrace { out: Vec::new(), cur: Vec::new(), open: false });
+        for a in &acts {
+            match a {
+                Act::Push(b) => r.push(b),
+                Act::Reset => r.reset(),
+            }
+        }
+        let mut h = r.into_fragment_handler();
+        if h.open {
+            h.out.push(format!("O{}:{:08x}", h.cur.len(), crc32(&h.cur)));
+        }
+        out.append(&mut h.out);
+    } else {
+        let mut calls: Vec<String> = Vec::new();
+        {
+            let mut r = AnnexBReader::accumulate(|nal: RefNal<'_>| {
+                let mut rd = nal.reader();
+                let mut bytes = Vec::new();
+                loop {
+                    match rd.fill_buf() {
+                        Ok(b) if b.is_empty() => break,
+                        Ok(b) => {
+                            bytes.extend_from_slice(b);
+                            let n = b.len();
+                            rd.consume(n);
+                        }
+                        Err(_) => break,
+                    }
+                }
+                calls.push(format!("L{}:{:08x};{}", bytes.len(), crc32(&bytes), nal.is_complete() as u8));
+                NalInterest::Buffer
+            });
+            for a in &acts {
+                match a {
+                    Act::Push(b) => r.push(b),
+                    Act::Reset => r.reset(),
+                }
+            }
+        }
+        out.append(&mut calls);
+    }
+}
+
 fn dispatch(cmd: &str, args: &[&str], out: &mut Vec<String>) {
     match cmd {
         "bits" => cmd_bits(args, out),
@@ -516,6 +692,7 @@ fn dispatch(cmd: &str, args: &[&str], out: &mut Vec<String>) {
         "refnal" => cmd_refnal(args, out),
         "accum" => cmd_accum(args, out),
         "accumbig" => cmd_accumbig(args, out),
+        "annexbig" => cmd_annexbig(args, out),
         _ => syntax::dispatch(cmd, args, out),
     }
 }
